@@ -114,12 +114,13 @@ impl Space for Crafted {
         let size = sizes(l, off)[d[2] as usize];
         let ty = SH_TYPES[d[3] as usize];
         let flags = SH_FLAGS[d[4] as usize];
-        let h = SectionHeader { sh_name: 0, sh_type: ty, sh_flags: flags, sh_addr: 0, sh_offset: off, sh_size: size, sh_link: 0, sh_info: 0, sh_addralign: 4, sh_entsize: 0 };
+        let align = [4u64, 3, 8, 12, 1][((d[1] + d[2]) % 5) as usize];
+        let h = SectionHeader { sh_name: 0, sh_type: ty, sh_flags: flags, sh_addr: 0, sh_offset: off, sh_size: size, sh_link: 0, sh_info: 0, sh_addralign: align, sh_entsize: 0 };
         let f = match ElfBytes::<AnyEndian>::minimal_parse(&img) {
             Ok(f) => f,
             Err(e) => panic!("base image does not parse: {e}"),
         };
-        let ctx = format!("{} shdr{{type {ty}, flags {flags:#x}, offset {off:#x}, size {size:#x}}} on a {l}-byte buffer", enc.name());
+        let ctx = format!("{} shdr{{type {ty}, flags {flags:#x}, offset {off:#x}, size {size:#x}, addralign {align}}} on a {l}-byte buffer", enc.name());
         let want = designated_section(enc, img.len(), &h);
         let mut dig = Fnv::new();
         // section_data
@@ -173,7 +174,7 @@ impl Space for Crafted {
                 let data = &img[a..b];
                 match subject(|| f.section_data_as_notes(&h).ok().map(|it| it.take(data.len() + 2).collect::<Vec<_>>())) {
                     Ok(Some(notes)) => {
-                        let refn = walk_notes(enc.order, 4, data);
+                        let refn = walk_notes(enc.order, align as usize, data);
                         if refn.len() != notes.len() {
                             out.violate("wrong-content:ElfBytes::section_data_as_notes", format!("{ctx}: {} notes, reference walk of the designated range gives {}", notes.len(), refn.len()));
                         }
